@@ -1,5 +1,7 @@
 import ObiVerif.Model.ReadErr
 import ObiVerif.Model.Kseq
+import ObiVerif.Model.KseqIdx
+import ObiVerif.Model.ReadMulti
 import ObiVerif.Driver.Util
 /-! line protocol for C17 -/
 namespace ObiVerif.Driver.C17
@@ -10,6 +12,19 @@ def parseErr : String → Option Err
 
 def kv (key : String) (s : String) : Option Nat :=
   if s.startsWith (key ++ "=") then (s.drop (key.length + 1)).toString.toNat? else none
+
+/-- the error classes of the decompression libraries (`harness/c17_multi.go`, `c17LibScan`) -/
+def parseLibErr : String → Option LibErr
+  | "eof" => some .eof | "ueof" => some .ueof | "header" => some .header | "checksum" => some .checksum
+  | "corrupt" => some .corrupt | "other" => some .other | _ => none
+
+/-- `ReadSequencesFromFile` on a file whose members decode to `sizes` bytes, the library delivering `n` bytes of the
+whole file and ending with `e` (`sizes = []`: a single member of unknown size) -/
+def runFile (sizes : List Nat) (n : Nat) (e : LibErr) : String :=
+  match readMulti endOfLastFastaEntry 1048576 1048576 (membersOf 62 sizes n e) with
+  | .empty => "empty"
+  | .fail => "fail"
+  | .read r => if r.2 == .ok then "ok" else "fail"
 
 def parseFin : String → Option Kseq.Fin
   | "fin=clean" => some .clean | "fin=trunc" => some .trunc | "fin=hard" => some .hard | _ => none
@@ -22,6 +37,16 @@ def showRec (r : Kseq.Rec) : String :=
 def runKseq (fin : Kseq.Fin) (d : List UInt8) : String :=
   let a := Kseq.readAll 4096 fin false 0 d
   let b := Kseq.readAll 4096 fin true 255 d
+  -- the index-level transcription (Model/KseqIdx.lean) is run side by side (proved equal: `kseqIdx_refines`)
+  let ai := KseqIdx.readAllI 4096 fin false (Array.replicate 4096 0) d
+  let bi := KseqIdx.readAllI 4096 fin true (Array.replicate 4096 255) d
+  let sameRec (x y : Kseq.Rec) : Bool := x.name == y.name && x.comment == y.comment && x.seq == y.seq && x.qual == y.qual
+  let rec sameRecs : List Kseq.Rec → List Kseq.Rec → Bool
+    | [], [] => true
+    | x :: xs, y :: ys => sameRec x y && sameRecs xs ys
+    | _, _ => false
+  let same (x y : List Kseq.Rec × Kseq.Outcome) : Bool := x.2 == y.2 && sameRecs x.1 y.1
+  if !(same a ai && same b bi) then "layer-mismatch" else
   match fin with
   | .clean =>
     (match a.2 with
@@ -50,15 +75,17 @@ def run (line : String) : String :=
     | _, _ => "bad-op"
   | ["file", _, _, _, n, e] =>
     -- the decompressor's behaviour on the damaged file is data: `n` bytes then error class `e`
-    if e = "err=raw" then "raw" else
-    match kv "n" n, (if e.startsWith "err=" then parseErr (e.drop 4).toString else none) with
-    | some n, some e =>
-      -- `ReadSequencesFromFile` on a stream of `n` bytes ending with `e` (the verdict does not depend on the bytes)
-      (match readFile endOfLastFastaEntry 1048576 1048576 ⟨List.replicate n 62, e⟩ with
-       | .empty => "empty"
-       | .fail => "fail"
-       | .read r => if r.2 == .ok then "ok" else "fail")
+    if e = "err=raw" then "raw" else if e = "err=altered" then "altered" else
+    match kv "n" n, (if e.startsWith "err=" then parseLibErr (e.drop 4).toString else none) with
+    | some n, some e => runFile [] n e
     | _, _ => "bad-op"
+  | ["file", _, _, _, n, e, ms] =>
+    -- multi-member file: `ms=` the decoded sizes of the members
+    if e = "err=raw" then "raw" else if e = "err=altered" then "altered" else
+    match kv "n" n, (if e.startsWith "err=" then parseLibErr (e.drop 4).toString else none),
+        (if ms.startsWith "ms=" then nats? ((ms.drop 3).toString.splitOn ",") else none) with
+    | some n, some e, some sizes => runFile sizes n e
+    | _, _, _ => "bad-op"
   | ["kseq", _, _, _, f, d] =>
     -- zlib's verdict on the (damaged) file is data: the bytes its gzread calls deliver and the final gzerror
     match parseFin f, (if d.startsWith "d=" then unhex (d.drop 2).toString else none) with
